@@ -88,12 +88,13 @@ fn check(c: &CrashCase, obs: &mut O) -> Verdict {
     let later_today = c.today + Duration::days(3);
     let mut outcomes: BTreeMap<&'static str, u64> = BTreeMap::new();
     prepare(&template, c, &cal);
-    let template_files: Vec<(std::ffi::OsString, Vec<u8>)> = std::fs::read_dir(&template).map(|d| d.filter_map(|e| e.ok()).filter_map(|e| std::fs::read(e.path()).ok().map(|b| (e.file_name(), b))).collect()).unwrap_or_default();
+    // the directory exactly as the earlier run left it: contents, left-over files, and which names share one inode (hard links)
+    let template_files: Vec<(std::ffi::OsString, Vec<u8>, u64)> = std::fs::read_dir(&template).map(|d| d.filter_map(|e| e.ok()).filter_map(|e| { use std::os::unix::fs::MetadataExt; let ino = e.metadata().map(|m| m.ino()).unwrap_or(0); std::fs::read(e.path()).ok().map(|b| (e.file_name(), b, ino)) }).collect()).unwrap_or_default();
     let _ = std::fs::remove_dir_all(&template);
     for p in &points {
         let _ = std::fs::remove_dir_all(&dir);
         let _ = std::fs::create_dir_all(&dir);
-        for (n, b) in &template_files { let _ = std::fs::write(dir.join(n), b); }
+        { let mut first_of: BTreeMap<u64, std::path::PathBuf> = BTreeMap::new(); for (n, b, ino) in &template_files { match first_of.get(ino) { Some(orig) if *ino != 0 => { let _ = std::fs::hard_link(orig, dir.join(n)); } _ => { let _ = std::fs::write(dir.join(n), b); first_of.insert(*ino, dir.join(n)); } } } }
         acb::util::date::set_todays_date_for_test(c.today);
         set_crash_point(Some(p.clone()));
         let calls = Rc::new(RefCell::new(BTreeMap::new()));
@@ -142,7 +143,7 @@ fn check(c: &CrashCase, obs: &mut O) -> Verdict {
 }
 
 pub fn def() -> PropDef {
-    let mut d = PropDef::new("C14", "fault enumeration: for each generated year content (50-366 rows; rates with 1-10 decimals, below and above 1, zero placeholders for unpublished days) and prior cache state (none / older complete file), a run that downloads the year is interrupted at EVERY byte offset of the cache file write (0..len, via the verif_hooks CrashWriter) and at every named step boundary of the write procedure; after each crash a fresh loader (today + 3 days, remote = published calendar) looks up the last three dates present in the file, the first missing date, the interrupted run's date and 5 random dates. Violation = a look-up returns a rate that differs from the published rate of the date it carries. Non-trivial = crash point strictly inside a row (file does not end in a newline). Distinct = distinct (content, crash point).");
+    let mut d = PropDef::new("C14", "fault enumeration: for each generated year content (50-366 rows; rates with 1-10 decimals, below and above 1, zero placeholders for unpublished days) and prior cache state (none / the directory exactly as an earlier complete run of the product left it, hard links and left-over files included), a run that downloads the year is interrupted at EVERY byte offset of the cache file write (0..len, via the verif_hooks CrashWriter) and at every named step boundary of the write procedure; after each crash a fresh loader (today + 3 days, remote = published calendar) looks up the last three dates present in the file, the first missing date, the interrupted run's date and 5 random dates. Violation = a look-up returns a rate that differs from the published rate of the date it carries. Non-trivial = crash point strictly inside a row (file does not end in a newline). Distinct = distinct (content, crash point).");
     d.level = "fault_enumeration";
     d.exhaustive = true;
     d.assumptions = vec!["crash model: operations persist in program order (what the hook sees); a filesystem that reorders un-synced writes behind a rename is outside this model", "byte offsets are exhaustive per generated content; contents are sampled"];
